@@ -1,21 +1,100 @@
 /-
 C19 — The julian command never crashes and prints all results or none.
-(partial by nature, see C18)
+
+Partial by nature (see C18): the theorems are about the CLI model, for *every* argument
+vector (arbitrary byte strings) and every day the clock may show; the correspondence check
+runs the built binary against that model, exit status and both output streams.
 -/
-import JulianVerif.Model.Cli
+import JulianVerif.Lemmas.CliOpts
+import JulianVerif.Lemmas.CliSpec
 set_option linter.unusedSimpArgs false
 namespace JV.C19
 open JV Cli
 
-/-- the process outcome has one of the documented forms: the only way to a panic is a panic
-of `at_jdn` (excluded by C01/C05) or of the country table (excluded by C12.ncal_valid);
-an error prints nothing on stdout -/
+/-- **the command never aborts with a panic, for any argument vector whatsoever**: the
+calendar `from_parser` ends up with is always well-formed, `at_jdn` is total on well-formed
+calendars (C01), and the `.expect()`s of the country listing cannot fire (C12) -/
+theorem never_panics (today : Int) (argv : List Bytes) : main today argv ≠ .panic := by
+  have := main_no_panic today argv
+  intro h; rw [h] at this; exact this
+
+/-- whatever the argument vector, the calendar in force is one `Calendar::reforming` accepted,
+or Julian, or Gregorian -/
+theorem calendar_wf (argv : List Bytes) (o : Options) (as : List String)
+    (h : parseCommand argv = .run o as) : WF o.calendar :=
+  parseCommand_wf argv o as h
+
+/-- the process outcome has one of the documented forms; an error prints nothing on stdout -/
 theorem outcome_forms (today : Int) (argv : List Bytes) :
-    showOutcome (main today argv) = "exit=101"
-    ∨ showOutcome (main today argv) = "exit=1 out=x err=1"
+    showOutcome (main today argv) = "exit=1 out=x err=1"
     ∨ showOutcome (main today argv) = "exit=0 HELP"
     ∨ showOutcome (main today argv) = "exit=0 VERSION"
     ∨ ∃ s, main today argv = .out s := by
-  cases h : main today argv <;> simp [showOutcome]
+  have hp := never_panics today argv
+  cases h : main today argv <;> simp [showOutcome] <;> exact absurd h hp
+
+/-- **all results or none**: the command prints one line per argument when every argument is
+acceptable, and if a single argument is not, it prints nothing and fails — however many
+acceptable arguments precede or follow it -/
+theorem all_or_nothing (o : Options) (hwf : WF o.calendar) (today : Int) (args : List String)
+    (hne : args ≠ []) :
+    (∀ ls, argLines o args = .ok ls →
+        o.run today args = .ok (if o.json then jsonPatch (jsonStart o.calendar :: ls) else ls)
+        ∧ ls.length = args.length)
+    ∧ (∀ a ∈ args, o.parseArg a = none → o.run today args = .error) := by
+  have he : args.isEmpty = false := by cases args <;> simp_all
+  constructor
+  · intro ls h
+    refine ⟨?_, ((argLines_ok_iff o args ls).mp h).1⟩
+    rw [run_eq]
+    cases hj : o.json <;> simp [he, h]
+  · intro a ha hp
+    have hl : argLine o a = .error false := by simp only [argLine, hp]
+    obtain ⟨e, herr⟩ := argLines_error_of_mem o args a ha false hl
+    have hnp := argLines_no_panic o hwf args
+    have : e = false := by
+      cases e
+      · rfl
+      · exact absurd herr hnp
+    subst this
+    rw [run_eq]; simp only [he, herr, Bool.false_eq_true, if_false]
+
+/-- **-h, -V and -c are honoured no matter which date or number arguments accompany them**:
+whatever positional arguments (valid or not), negative numbers and switches precede, and
+whatever follows -/
+theorem early_exit_honoured (today : Int) (toks : List Tok) (hok : ∀ t ∈ toks, t.Ok)
+    (post : List Bytes) :
+    main today (toks.flatMap Tok.encode ++ [45, 104] :: post) = .help
+    ∧ main today (toks.flatMap Tok.encode ++ [45, 86] :: post) = .version
+    ∧ main today (toks.flatMap Tok.encode ++ [45, 45, 104, 101, 108, 112] :: post) = .help
+    ∧ main today (toks.flatMap Tok.encode ++ [45, 45, 118, 101, 114, 115, 105, 111, 110] :: post)
+        = .version
+    ∧ (∃ s, main today (toks.flatMap Tok.encode ++ [45, 99] :: post) = .out s)
+    ∧ (∃ s, main today (toks.flatMap Tok.encode
+          ++ [45, 45, 99, 111, 117, 110, 116, 114, 105, 101, 115] :: post) = .out s) := by
+  obtain ⟨h1, h2, h3, h4, h5, h6⟩ := early_exit toks hok post
+  obtain ⟨ls, hls⟩ := countriesLines_some
+  refine ⟨?_, ?_, ?_, ?_, ?_, ?_⟩ <;> simp only [main, h1, h2, h3, h4, h5, h6, hls]
+  · exact ⟨_, rfl⟩
+  · exact ⟨_, rfl⟩
+
+/-- **negative integers are taken as day numbers rather than mistaken for options**: a '-'
+followed by digits reaches `run` as one positional argument (in any position, among any
+options — `C18.option_parsing` with `Tok.neg`), and that argument is read as the negative
+day number -/
+theorem negative_numbers (o : Options) (k : Fin 10) (rest : Bytes) (s : String)
+    (hdec : (rest = [] ∧ s = "") ∨ (rest ≠ [] ∧ rest.head? ≠ some 61 ∧ bytesToString? rest = some s))
+    (hdig : s.toList.all isAsciiDigit = true) :
+    parseCommand [45 :: digitByte k :: rest]
+        = .run {} ["-" ++ (Char.ofNat (digitByte k).toNat).toString ++ s]
+    ∧ o.parseArg ("-" ++ (Char.ofNat (digitByte k).toNat).toString ++ s)
+        = (let n : Int := -(digitsVal (Char.ofNat (digitByte k).toNat :: s.toList) 0 : Int)
+           if inI32 n then some (.jdn n) else none) := by
+  constructor
+  · have := parse_spec [.neg k rest s] (by intro t ht; simp at ht; subst ht; exact hdec)
+    simpa [Tok.encode, Tok.apply, Tok.arg] using this
+  · have hc : isAsciiDigit (Char.ofNat (digitByte k).toNat) = true := by
+      revert k; decide
+    exact neg_is_jdn o _ hc s hdig
 
 end JV.C19
